@@ -85,6 +85,7 @@
     clippy::undocumented_unsafe_blocks
 )]
 #![allow(clippy::type_complexity, clippy::manual_range_contains)]
+#![cfg_attr(feature = "h2_verif", allow(missing_docs, missing_debug_implementations))]
 // uncomment me to run benchmarks
 //#![cfg_attr(test, feature(test))]
 #![cfg_attr(test, deny(warnings))]
@@ -134,6 +135,9 @@ mod share;
 #[cfg(fuzzing)]
 #[cfg_attr(feature = "unstable", allow(missing_docs))]
 pub mod fuzz_bridge;
+
+#[cfg(feature = "h2_verif")]
+pub mod verif;
 
 pub use crate::error::{Error, Reason};
 pub use crate::share::{FlowControl, Ping, PingPong, Pong, RecvStream, SendStream, StreamId};
